@@ -122,6 +122,11 @@ func (c *Content) WithFileInfoDefaults(umask fs.FileMode, mtime time.Time) *Cont
 	}
 	if cc.FileInfo == nil {
 		cc.FileInfo = &ContentFileInfo{}
+	} else {
+		// work on a copy: the defaults below must not leak into the caller's
+		// (possibly shared) file info
+		fileInfo := *cc.FileInfo
+		cc.FileInfo = &fileInfo
 	}
 	if cc.FileInfo.Owner == "" {
 		cc.FileInfo.Owner = "root"
